@@ -159,7 +159,7 @@ LAYERS = [
         ("requests arrived at a server the configuration does not trust", edit(lambda e: e.get("requests") == 0 and not e.get("success"), setk(["requests"], 3)), "C18_"),
     ]),
     ("Period", "C19_tv", "C19", [
-        ("a parsed period one second longer", edit(lambda e: e["e"] == "Period" and e.get("ok") and not e.get("big"), setk(["sec"], lambda v: v + 1)), "C19_"),
+        ("a parsed period one second longer", edit(lambda e: e["e"] == "Period" and e.get("ok") and e.get("val"), setk(["val"], lambda v: [(v[0] + 1) % 1000] + v[1:])), "C19_"),
         ("a start-up that ended in a crash", edit(lambda e: e["e"] == "Start", setk(["outcome"], "crash")), "C19_"),
     ]),
     ("DefaultHooks", "C20_tv", "C20", [
